@@ -111,6 +111,13 @@ class C12(Check):
         return 1 if self.tier == "quick" else 2
 
     def _solutions(self, wk):
+        if not hasattr(self, "_sol_cache"):
+            self._sol_cache = {}
+        if wk not in self._sol_cache:
+            self._sol_cache[wk] = self._solutions_uncached(wk)
+        return self._sol_cache[wk]
+
+    def _solutions_uncached(self, wk):
         gene = worlds.gene_of(wk, "hg19")
         A = copy_alphabet(wk, gene, self.tier)
         maxc = 2 if self.tier == "quick" else 3
@@ -130,11 +137,13 @@ class C12(Check):
     def successors(self, st):
         wk, sols = st
         allsol = self._solutions(wk)
-        step = 1
+        step = 11
         if self.tier == "quick":
             step = 7
         elif len(sols) >= 2:
-            step = 29
+            if hash(sols) % 20:
+                return
+            step = 211
         off = (hash(sols) + self.seed) % step
         for s in allsol[off::step]:
             yield ("+solution", (wk, sols + (s,)))
